@@ -342,24 +342,38 @@ PROPS = {
     },
     "C16": {
         "title": "The v1.2.0 upgrade and store migrations preserve locked value",
-        "model": "Upgrade.v: migrate_pool, upgrade_pools (ModifyVestingPoolsState), shift_account",
+        "model": "Upgrade.v: migrate_pool, upgrade_pools (ModifyVestingPoolsState), shift_account; Migrate.v: migrate_minter_v3, migrate_distr_v3, "
+                 "migrate_vesting_params_v3, share_from_percent, conv_periodic",
         "runs": [{"kind": "upgrade", "profile": "", "n_quick": 300, "n_thorough": 10000, "per_shard": 20, "env": {"TZ": "UTC"}},
-                 {"kind": "upgrade", "profile": "tz", "n_quick": 150, "n_thorough": 5000, "per_shard": 20, "env": {"TZ": "Europe/Warsaw"}}],
+                 {"kind": "upgrade", "profile": "tz", "n_quick": 150, "n_thorough": 5000, "per_shard": 20, "env": {"TZ": "Europe/Warsaw"}},
+                 {"kind": "migrate", "profile": "", "n_quick": 400, "n_thorough": 12000, "per_shard": 200}],
         "preds": ["C16."],
         "rule": "pre-upgrade stores generated from (VERIF_SEED, index): 0-4 owners incl./excl. the hard-coded pool owner, pools written in the legacy (v2) "
                 "protobuf format with random sent / withdrawn histories, the validators pool with currently-locked exactly the split sum, one below, decided "
                 "only by its withdrawn history, or far above; old vesting type present / absent; the four hard-coded accounts absent / base / continuous "
                 "vesting with start and end anywhere in 2022-2024; the real v3.MigrateStore, UpdateVestingAccountTraces, ModifyVestingPoolsState and "
                 "ModifyVestingAccountsState run on the store; the second run executes the same cases in a process with TZ=Europe/Warsaw; the owner's "
-                "pools after the upgrade are compared with the Coq model; non-trivial = the split was applied; distinct = distinct (pools, constants)",
-        "partial": ["the minter / distributor parameter migrations (v2 -> v3) are exercised by the repository's own migration tests only; the "
-                    "machinery here covers the vesting pool migration, the validators-pool split and the account shift"],
+                "pools after the upgrade are compared with the Coq model; non-trivial = the split was applied; distinct = distinct (pools, constants) | "
+                "parameter migrations: legacy (version 2) minter configurations (1-5 periods, first id 1-3, type string + optional linear / exponential "
+                "configurations, stored sorted or shuffled; 45% perturbed: zero exponential amount, type string disagreeing with the configuration, unknown "
+                "type, both configurations, missing / early end, id gap, first id 0, empty / malformed denomination, non-positive step, negative "
+                "multiplier / amount), legacy distributor sub-distributor lists (valid and perturbed) and vesting denominations are written into the "
+                "x/params subspaces, the module's own Migrator.Migrate2to3 runs, and the parameters the keeper then returns are compared with the Coq "
+                "model; the minter state is written with the legacy protobuf type and read back through the keeper; three blocks are minted under the "
+                "migrated parameters and compared with an exact-rational schedule computed from the legacy values; the v1.1.0 percent and "
+                "periodic-reduction conversions run through the real v2.MigrateParams on amino-JSON legacy values",
+        "partial": ["the wiring inside CreateUpgradeHandler (ICA module initialisation, RunMigrations over the version map) is not executed: the "
+                    "module migrators and the three v120 functions are called directly in the handler's order"],
         "level_text": "Coq theorems for every pre-upgrade pool list and any split constants: the v2->v3 migration keeps every pool's amounts, history and "
                       "lock period; the validators-pool split, when applied, keeps the total locked, every pre-existing pool's sent/withdrawn and lock "
                       "period, takes exactly the sum from the validators pool, appends exactly the configured pools with sent = withdrawn = 0, and "
                       "preserves the per-pool solvency bounds; it is applied completely or not at all; shifted accounts keep their amounts for any "
-                      "calendar function. The real migration and upgrade functions run on generated legacy stores, incl. in a second process under "
-                      "another time zone (F7), with the registered vesting invariants evaluated afterwards.",
+                      "calendar function. Parameter migrations (2 -> 3): whatever the minter migration stores validates and equals the legacy "
+                      "description read off the configurations present (so every block and inflation query behaves as the legacy schedule "
+                      "prescribes, ids / end times / current period kept); it is refused exactly when the denomination is invalid or an exponential "
+                      "amount is zero; the distributor's sub-distributors are stored unchanged iff valid. The real migration and upgrade functions "
+                      "run on generated legacy stores, incl. in a second process under another time zone (F7), with the registered vesting "
+                      "invariants evaluated afterwards.",
     },
     "C17": {
         "title": "Genesis lineage of vesting accounts and vesting summaries are accurate",
